@@ -42,8 +42,9 @@ class PostCheck:
         self.wf_axioms = []
 
     def ob(self, name, hyps, goal, info):
+        raw = str(goal)[:400] if z3.is_expr(goal) else str(bool(goal))
         goal = z3.simplify(goal) if z3.is_expr(goal) else z3.BoolVal(bool(goal))
-        self.obs.append(Obligation(name, list(self.wf_axioms) + list(hyps), goal, info, self.c.d.get("families", [])))
+        self.obs.append(Obligation(name, list(self.wf_axioms) + list(hyps), goal, info, self.c.d.get("families", []), raw))
 
     def eval_pred(self, fname, args, st):
         """a sidecar predicate (Python subset) evaluated symbolically to a z3 Bool (disjunction over its paths)"""
